@@ -1,5 +1,6 @@
 import HexModel.Wire
 import HexModel.Parse
+import HexModel.Core.Hexital
 /-
 The line-protocol driver: one operation per line in, canonical output lines out.
 -/
@@ -9,6 +10,8 @@ open Hex Hex.Wire Hex.Parse
 structure DState where
   mgr : Option (Manager Float) := none
   ind : Option (IndState Float) := none
+  hex : Option (Hexital Float) := none
+  pending : List (Member Float) := []
 
 def parseCfg (ps : List (String × String)) : PyM MgrCfg := do
   let tf ← match param ps "tf" with
@@ -70,6 +73,24 @@ def indAcc (s : IndState Float) (what : String) (ps : List (String × String)) :
   | "reading_period" => toString (x.readingPeriod (pInt ps "period" 1) nm idx)
   | "candles_sum" => showRes (x.candlesSum (pInt ps "length" 1) nm idx)
   | _ => "bad-acc"
+
+def hexOp (st : DState) (r : PyM (Hexital Float)) : DState × List String :=
+  match r with
+  | .ok h => ({ st with hex := some h }, ["ok"])
+  | .error e => ({ st with hex := none }, [s!"err {e}"])
+
+def hexSnap (h : Hexital Float) : List String :=
+  h.managers.flatMap fun (k, m) => s!"mgr {k} {m.candles.length}" :: m.candles.map showCandle
+
+def parseMember (ps : List (String × String)) : Option (Member Float) := do
+  let tree ← parseInd ps
+  let tfName := (param ps "tf").map String.toUpper
+  let tfSecs ← match tfName with
+    | none => some none
+    | some t => match parseTimeframe t with
+      | .ok v => some (some v)
+      | .error _ => none
+  some { tree := tree, tfName := tfName, tfSecs := tfSecs }
 
 def step (st : DState) (line : String) : DState × List String :=
   let toks := (line.splitOn " ").filter (· ≠ "")
@@ -150,6 +171,102 @@ def step (st : DState) (line : String) : DState × List String :=
     match st.ind with
     | some s => (st, [indAcc s what ps])
     | none => (st, ["noind"])
+  | "iset" :: rest =>
+    let (ps, _) := splitParams rest
+    match st.ind, (param ps "idx").bind String.toInt?, param ps "name", (param ps "val").bind parseVal with
+    | some s, some i, some nm, some v =>
+      match setReading (param ps "sub" == some "1") nm s.mgr.candles i v with
+      | .ok cs => ({ st with ind := some { s with mgr := { s.mgr with candles := cs } } }, ["ok"])
+      | .error e => (st, [s!"err {e}"])
+    | _, _, _, _ => (st, ["bad-op"])
+  | "ana" :: rest =>
+    let (ps, _) := splitParams rest
+    match st.ind, parseAnalysis ps with
+    | some s, some a =>
+      let idx : Option Int := (param ps "idx").bind String.toInt?
+      let r : PyM (Val Float) := match a, idx with
+        | .doji lb, none => Pat.doji s.mgr.candles lb none
+        | .dojistar lb, none => Pat.dojistar s.mgr.candles lb none
+        | .hammer lb, none => Pat.hammer s.mgr.candles lb none
+        | .invHammer lb, none => Pat.invHammer s.mgr.candles lb none
+        | a, some i => runAnalysis a s.mgr.candles i
+        | a, none => runAnalysis a s.mgr.candles (-1)
+      (st, [showRes r])
+    | _, _ => (st, ["bad-op"])
+  | "hmember" :: rest =>
+    let (ps, _) := splitParams rest
+    match parseMember ps with
+    | some m => ({ st with pending := st.pending ++ [m] }, [s!"ok name={m.tree.name}"])
+    | none => (st, ["bad-op"])
+  | "hnew" :: rest =>
+    let (ps, rest) := splitParams rest
+    match (param ps "n").bind String.toNat? with
+    | none => (st, ["bad-op"])
+    | some n =>
+      match parseCandles n rest with
+      | none => (st, ["bad-op"])
+      | some (cs, _) =>
+        let members := st.pending
+        hexOp { st with pending := [] } (do let cfg ← parseMgrCfg ps; Hexital.init cfg cs members)
+  | "hadd" :: _ =>
+    match st.hex with
+    | some h => hexOp { st with pending := [] } (h.addIndicators st.pending)
+    | none => (st, ["bad-op"])
+  | "happ" :: rest =>
+    let (ps, rest) := splitParams rest
+    match st.hex, (param ps "n").bind String.toNat? with
+    | some h, some n =>
+      match parseCandles n rest with
+      | none => (st, ["bad-op"])
+      | some (cs, _) => hexOp st (h.append cs (param ps "enc" == some "candle"))
+    | _, _ => (st, ["bad-op"])
+  | "hcalc" :: rest =>
+    let (ps, _) := splitParams rest
+    match st.hex with
+    | some h => hexOp st (h.calculate (param ps "name"))
+    | none => (st, ["bad-op"])
+  | "hpurge" :: rest =>
+    let (ps, _) := splitParams rest
+    match st.hex with
+    | some h => hexOp st (h.purge (param ps "name"))
+    | none => (st, ["bad-op"])
+  | "hrecalc" :: rest =>
+    let (ps, _) := splitParams rest
+    match st.hex with
+    | some h => hexOp st (h.recalculate (param ps "name"))
+    | none => (st, ["bad-op"])
+  | "hcidx" :: rest =>
+    let (ps, _) := splitParams rest
+    match st.hex with
+    | some h => hexOp st (h.calculateIndex (param ps "name") (pInt ps "idx" (-1)))
+    | none => (st, ["bad-op"])
+  | "hrem" :: rest =>
+    let (ps, _) := splitParams rest
+    match st.hex with
+    | some h => hexOp st (h.removeIndicator (param ps "name"))
+    | none => (st, ["bad-op"])
+  | "hsnap" :: _ =>
+    match st.hex with
+    | some h => (st, hexSnap h)
+    | none => (st, ["nohex"])
+  | "hacc" :: what :: rest =>
+    let (ps, _) := splitParams rest
+    match st.hex with
+    | none => (st, ["nohex"])
+    | some h =>
+      let nm := (param ps "name").getD ""
+      let out := match what with
+        | "reading" => showRes (h.reading nm (pInt ps "idx" (-1)))
+        | "prev_reading" => showRes (h.prevReading nm)
+        | "has_reading" => match h.hasReading nm with
+          | .ok b => toString b
+          | .error e => s!"err {e}"
+        | "as_list" => match h.readingAsList nm with
+          | .ok l => " ".intercalate (l.map showVal)
+          | .error e => s!"err {e}"
+        | "names" => " ".intercalate (h.indicators.map (·.1))
+        | _ => "bad-acc"
+      (st, [out])
   | "msnap" :: _ =>
     match st.mgr with
     | some m => (st, snapLines m.candles)
